@@ -480,3 +480,168 @@ def m_clone_from(c):
     src = deref(c.st, c.args[1])
     tgt.store(clone_deep(c.st, src), c.st)
     return UNIT
+
+
+@model('Ordering::then_with')
+def m_then_with(c):
+    o = c.args[0]
+    d = o.disc if not isinstance(o.disc, int) else z3.BitVecVal(o.disc, 64)
+    if c.st.branch(d == 0, 'then_with equal'):
+        return c.native('call_ret', {'f': c.args[1], 'args': [], 'stage': 0})
+    return o
+
+
+@model('Ordering::then')
+def m_then(c):
+    o = c.args[0]
+    d = o.disc if not isinstance(o.disc, int) else z3.BitVecVal(o.disc, 64)
+    if c.st.branch(d == 0, 'then equal'):
+        return c.args[1]
+    return o
+
+
+@model('Ordering::reverse')
+def m_ord_reverse(c):
+    o = c.args[0]
+    d = o.disc if not isinstance(o.disc, int) else z3.BitVecVal(o.disc, 64)
+    r = z3.simplify(-d)
+    return Enum('Ordering', r.as_signed_long() if z3.is_bv_value(r) else r, {})
+
+
+@model('Ordering::is_lt', 'Ordering::is_le', 'Ordering::is_gt', 'Ordering::is_ge', 'Ordering::is_eq', 'Ordering::is_ne')
+def m_ord_is(c):
+    o = deref(c.st, c.args[0])
+    d = o.disc if not isinstance(o.disc, int) else z3.BitVecVal(o.disc, 64)
+    op = c.canon.split('::')[-1]
+    return z3.simplify({'is_lt': d == -1, 'is_le': d != 1, 'is_gt': d == 1, 'is_ge': d != -1, 'is_eq': d == 0, 'is_ne': d != 0}[op])
+
+
+@cont('call_ret')
+def k_call_ret(st, fr, rv):
+    d = fr.data
+    if d['stage'] == 0:
+        d['stage'] = 1
+        return st.ex.call_value(st, d['f'], d['args'], None, None)
+    return st.ex.native_return(st, fr, rv)
+
+
+# ------------------------------------------------------------------ format!: structured strings
+
+@model('Argument::new_display', 'Argument::new_lower_hex', 'Argument::new_upper_hex', 'Argument::new_debug')
+def m_fmt_argument(c):
+    return Struct('FmtArg', {'spec': c.canon.split('::')[-1], 'val': deref(c.st, c.args[0])})
+
+
+@model('Arguments::new', 'Arguments::new_v1', 'Arguments::new_const', 'Arguments::from_str')
+def m_fmt_arguments(c):
+    tpl = deref(c.st, c.args[0])
+    if isinstance(tpl, Seq):
+        items = tpl.items(c.st)
+        if all(isinstance(x, Int) and z3.is_bv_value(z3.simplify(x.v)) for x in items):
+            tpl = bytes(z3.simplify(x.v).as_long() for x in items)
+        else:
+            tpl = None
+    elif isinstance(tpl, Str):
+        tpl = tpl.text
+    args = []
+    if len(c.args) > 1:
+        a = deref(c.st, c.args[1])
+        if isinstance(a, Seq):
+            args = list(a.items(c.st))
+    return Struct('FmtArgs', {'tpl': tpl, 'args': args})
+
+
+@model('format', 'std::fmt::format', 'alloc::fmt::format', 'fmt::format')
+def m_format(c):
+    a = c.args[0]
+    sid = z3.BitVec(c.st.fresh_name('fmt'), 64)
+    if isinstance(a, Struct) and a.ty == 'FmtArgs' and a.fields.get('tpl') is not None:
+        vals = []
+        for x in a.fields['args']:
+            if isinstance(x, Struct) and x.ty == 'FmtArg':
+                vals.append((x.fields['spec'], x.fields['val']))
+            else:
+                return Str(sid)
+        return Str(sid, parts=(a.fields['tpl'], vals))
+    return Str(sid)
+
+
+def fmt_equal(st, a, b):
+    """z3 Bool: two strings built by format! are equal.  Same template: argument-wise equality (Display/hex of
+    integers and bools is injective).  Templates whose leading literals differ: unequal.  Anything else: unsupported."""
+    (ta, va), (tb, vb) = a.parts, b.parts
+    if ta == tb and len(va) == len(vb):
+        cs = []
+        for (sa, x), (sb, y) in zip(va, vb):
+            if sa != sb:
+                raise Unsupported('format! strings with different specs')
+            if isinstance(x, Int) and isinstance(y, Int):
+                cs.append(x.v == y.v)
+            elif z3.is_bool(x) and z3.is_bool(y):
+                cs.append(x == y)
+            elif isinstance(x, Str) and isinstance(y, Str):
+                cs.append(str_equal(st, x, y))
+            else:
+                raise Unsupported('format! argument of type ' + type(x).__name__)
+        return z3.And(cs) if cs else z3.BoolVal(True)
+    la, lb = _leading_literal(ta), _leading_literal(tb)
+    if la and lb and not la.startswith(lb) and not lb.startswith(la):
+        return z3.BoolVal(False)
+    raise Unsupported('comparison of strings from different format! templates')
+
+
+def _leading_literal(tpl):
+    """leading literal piece of a compiled format template (`\x02i:\xc0\x00`: length byte, then the text)"""
+    if isinstance(tpl, str):
+        return tpl.encode()
+    if not tpl:
+        return b''
+    n = tpl[0]
+    if n >= 0x80:
+        return b''
+    return bytes(tpl[1:1 + n])
+
+
+def str_equal(st, a, b):
+    if a.parts is not None and b.parts is not None:
+        return fmt_equal(st, a, b)
+    if (a.parts is not None) != (b.parts is not None):
+        other = b if a.parts is not None else a
+        mine = a if a.parts is not None else b
+        if other.text is not None:
+            lit = _leading_literal(mine.parts[0])
+            if lit and not other.text.encode().startswith(lit):
+                return z3.BoolVal(False)
+            raise Unsupported('comparison of a format! string with a literal')
+    return a.id == b.id
+
+
+@pattern(r'^<&+(u8|u16|u32|u64|u128|usize|i8|i16|i32|i64|i128|isize|bool|char) as (PartialEq|PartialOrd|Ord)(<.*>)?>::(eq|ne|lt|le|gt|ge|cmp|partial_cmp)$')
+def m_ref_prim_cmp(c):
+    from .models import m_int_cmp
+    return m_int_cmp(c)      # m_int_cmp dereferences its operands
+
+
+@pattern(r'^<&*(f32|f64) as (PartialEq|PartialOrd)(<.*>)?>::(eq|ne|lt|le|gt|ge|partial_cmp)$')
+def m_float_cmp(c):
+    a = deref(c.st, c.args[0])
+    b = deref(c.st, c.args[1])
+    op = c.canon.split('::')[-1]
+    x, y = a.v, b.v
+    if op == 'eq':
+        return z3.simplify(z3.fpEQ(x, y))
+    if op == 'ne':
+        return z3.simplify(z3.Not(z3.fpEQ(x, y)))
+    if op == 'lt':
+        return z3.simplify(z3.fpLT(x, y))
+    if op == 'le':
+        return z3.simplify(z3.fpLEQ(x, y))
+    if op == 'gt':
+        return z3.simplify(z3.fpGT(x, y))
+    if op == 'ge':
+        return z3.simplify(z3.fpGEQ(x, y))
+    # partial_cmp: None when unordered
+    if c.st.branch(z3.Or(z3.fpIsNaN(x), z3.fpIsNaN(y)), 'partial_cmp unordered'):
+        return none()
+    d = z3.simplify(z3.If(z3.fpLT(x, y), z3.BitVecVal(-1, 64), z3.If(z3.fpEQ(x, y), z3.BitVecVal(0, 64), z3.BitVecVal(1, 64))))
+    return some(Enum('Ordering', d.as_signed_long() if z3.is_bv_value(d) else d, {}))
